@@ -25,6 +25,10 @@ pub enum SlotClass {
     Skip,
     SideOpen,
     Empty,
+    /// chain slot with two strong blocks: one gathers a notarization certificate (>= 60 % with the Byzantine
+    /// validators voting for both), the other >= 40 % and hence a notar-fallback certificate; nobody can
+    /// finalize the slot directly, the chain continues on either of them
+    Rival,
 }
 
 #[derive(Clone, Debug)]
@@ -99,13 +103,23 @@ impl World {
                 slot_blocks.push(b.1);
             }
             let cls = if main.is_some() {
-                [SlotClass::Fast, SlotClass::Fast, SlotClass::Slow, SlotClass::Slow, SlotClass::NotarOnly, SlotClass::NfOnly].choose(rng).unwrap().clone()
+                if nside > 0 && rng.random_bool(0.35) {
+                    SlotClass::Rival
+                } else {
+                    [SlotClass::Fast, SlotClass::Fast, SlotClass::Slow, SlotClass::Slow, SlotClass::NotarOnly, SlotClass::NfOnly].choose(rng).unwrap().clone()
+                }
             } else if nside > 0 {
                 [SlotClass::Skip, SlotClass::SideOpen, SlotClass::SideOpen, SlotClass::Empty].choose(rng).unwrap().clone()
             } else {
                 [SlotClass::Skip, SlotClass::Skip, SlotClass::Empty].choose(rng).unwrap().clone()
             };
             let cls = cls.clone();
+            if cls == SlotClass::Rival {
+                // an equivocating leader's two blocks extend the same parent
+                if let Some(b) = blocks.iter_mut().find(|b| b.id.0 == slot && !b.on_chain) {
+                    b.parent = tip;
+                }
+            }
             class.insert(slot, cls.clone());
             Self::slot_votes(rng, ep, &byz, slot, &cls, main.map(|b| b.1), &slot_blocks, &mut votes);
             if let Some(b) = main {
@@ -131,13 +145,44 @@ impl World {
             // up to a notarized (never fast-finalizable) block in a slot the main chain passes over
             SlotClass::SideOpen => (0, 79),
             SlotClass::Skip | SlotClass::Empty => (0, 39),
+            SlotClass::Rival => (0, 0),
         };
         let target = rng.random_range(lo..=hi);
         let strongest: Option<H32> = main.or_else(|| sides.first().copied());
         let mut initial: BTreeMap<usize, Option<H32>> = BTreeMap::new(); // Some(h)=notar(h), None=skip
         let mut acc = 0u128;
         let mut voters: Vec<usize> = Vec::new();
-        if let Some(h) = strongest {
+        // Byzantine validators' additional notarization votes (they vote for both rivals)
+        let mut byz_double: Vec<(usize, H32)> = Vec::new();
+        if *cls == SlotClass::Rival {
+            let m = main.expect("rival slots are chain slots");
+            let side = sides[0];
+            // R1: the chain block is the notarized one; R2: the chain continues on the weaker block
+            let (big, small) = if rng.random_bool(0.5) { (m, side) } else { (side, m) };
+            let b_all: u128 = byz.iter().map(|i| ep.stakes[*i] as u128).sum();
+            // the thresholds are reached without the first untrusted validator (the Votor harness puts the
+            // real node under test in its place, and certificates are offered without its signature)
+            let b: u128 = if rng.random_bool(0.5) { b_all } else { b_all - byz.iter().next().map(|i| ep.stakes[*i] as u128).unwrap_or(0) };
+            let (mut hb, mut hs) = (0u128, 0u128);
+            for &i in &order {
+                if byz.contains(&i) {
+                    continue;
+                }
+                let s = ep.stakes[i] as u128;
+                if (hb + b) * 5 < 3 * total && (hb + s + b_all) * 5 < 4 * total {
+                    initial.insert(i, Some(big));
+                    hb += s;
+                } else if (hs + b) * 5 < 2 * total && (hs + s + b_all) * 5 < 3 * total {
+                    initial.insert(i, Some(small));
+                    hs += s;
+                }
+            }
+            for &i in byz {
+                initial.insert(i, Some(big));
+                byz_double.push((i, small));
+            }
+        }
+        if let Some(h) = strongest.filter(|_| *cls != SlotClass::Rival) {
             for &i in &order {
                 let s = ep.stakes[i] as u128;
                 let reached = acc * 100 >= target * total;
@@ -178,7 +223,7 @@ impl World {
             if r < silent_p {
                 continue;
             }
-            let side_ok = !sides.is_empty() && {
+            let side_ok = !sides.is_empty() && *cls != SlotClass::Rival && {
                 let h = sides[rng.random_range(0..sides.len())];
                 let cur = *side_acc.get(&h).unwrap_or(&0);
                 // side blocks stay below 40 % so that they never compete for a certificate
@@ -202,7 +247,10 @@ impl World {
             }
         }
         // global stake picture of the initial votes
-        let notar_stake = |h: &H32| -> u128 { initial.iter().filter(|(_, v)| **v == Some(*h)).map(|(i, _)| ep.stakes[*i] as u128).sum() };
+        let notar_stake = |h: &H32| -> u128 {
+            initial.iter().filter(|(_, v)| **v == Some(*h)).map(|(i, _)| ep.stakes[*i] as u128).sum::<u128>()
+                + byz_double.iter().filter(|(_, b)| b == h).map(|(i, _)| ep.stakes[*i] as u128).sum::<u128>()
+        };
         let skip_stake: u128 = initial.iter().filter(|(_, v)| v.is_none()).map(|(i, _)| ep.stakes[*i] as u128).sum();
         let per_block: Vec<(H32, u128)> = all_blocks.iter().map(|h| (*h, notar_stake(h))).collect();
         let sum_notar: u128 = per_block.iter().map(|x| x.1).sum();
@@ -212,7 +260,7 @@ impl World {
             let nb = notar_stake(h);
             nb * 5 >= 2 * total || (nb * 5 >= total && (nb + skip_stake) * 5 >= 3 * total)
         };
-        let finalizable = matches!(cls, SlotClass::Fast | SlotClass::Slow | SlotClass::NotarOnly) && main.is_some_and(|h| notar_stake(&h) * 5 >= 3 * total);
+        let finalizable = matches!(cls, SlotClass::Fast | SlotClass::Slow | SlotClass::NotarOnly | SlotClass::Rival) && main.is_some_and(|h| notar_stake(&h) * 5 >= 3 * total);
         let mut final_budget_left = match cls {
             // NotarOnly: honest finals stay below what could form a certificate together with the adversary
             SlotClass::NotarOnly => total * 2 / 5,
@@ -258,6 +306,11 @@ impl World {
                 match init {
                     Some(h) => out.push(MVote { signer: i, kind: VK::Notar, slot, hash: Some(*h) }),
                     None => out.push(MVote { signer: i, kind: VK::Skip, slot, hash: None }),
+                }
+            }
+            for (j, h) in &byz_double {
+                if *j == i {
+                    out.push(MVote { signer: i, kind: VK::Notar, slot, hash: Some(*h) });
                 }
             }
             let extra = rng.random_range(0..5);
